@@ -22,8 +22,11 @@ NoKid == 0
 
 KeyTypes == {"Ed25519", "BLS12381G2", "bogus"}
 Algs == {"EdDSA", "ES256", "bogus"}
-JwkClasses == {"private_alg", "public_only", "no_alg", "wrong_alg", "wrong_kty", "wrong_crv"}
-PubClasses == {"own", "other", "no_alg", "wrong_kty"}
+\* insert: only a fully private Ed25519 JWK whose alg is the compatible JWS algorithm is storable. "wrong_alg" = a known JWS
+\* algorithm that does not fit the key, "unknown_alg" = an alg member that is present but names no JWS algorithm.
+JwkClasses == {"private_alg", "public_only", "no_alg", "wrong_alg", "unknown_alg", "wrong_kty", "wrong_crv"}
+\* sign: the caller's public JWK selects the algorithm; anything but an EdDSA/Ed25519 public JWK is refused
+PubClasses == {"own", "other", "no_alg", "wrong_alg", "unknown_alg", "wrong_kty", "wrong_crv"}
 
 Ok(r)  == [ok |-> TRUE] @@ r
 Err    == [ok |-> FALSE]
